@@ -95,10 +95,14 @@ def main():
         rc, o = sh('%s OUT/demo.py' % PY, cwd=wt, env=env, timeout=1800)
         return rc, o[-400:]
     # state: change applied?
-    rc, o = sh('git diff --stat -- src', cwd=wt)
-    applied = bool(o.strip())
-    if not applied:
-        sh('git apply %s' % patch, cwd=wt)
+    # always start from the pristine sources plus exactly OUT/patch.diff (the agents' worktrees share one git stash, and
+    # two of them swapped changes through it), and from extension modules built from exactly these sources
+    sh('git checkout -- src', cwd=wt)
+    rc, o = sh('git apply %s' % patch, cwd=wt)
+    rec['patch_applies'] = (rc == 0)
+    if not native:
+        rc, o = sh('%s setup.py build_ext --inplace -j 4' % PY, cwd=wt, env=env)
+        rec['ran'].append('build_ext --inplace of the unchanged native sources (rc=%d)' % rc)
     build()
     rc1, o1 = demo()
     rec['demo_with_change'] = rc1
@@ -128,6 +132,24 @@ def main():
     sh('git apply %s' % patch, cwd=wt)
     build()
     rec['confirmed'] = (rc1 != 0 and rc0 == 0 and not missing)
+    if os.environ.get('SEED_CONFIRM_ONLY'):
+        # confirmation only (runs entirely in the scratch worktree, so several can run side by side); the checks are run
+        # afterwards, one change at a time, with --checks-only
+        try:
+            am = json.load(open(os.path.join(out, 'agent_meta.json')))
+        except Exception:
+            am = {}
+        rec['checks'] = {}
+        rec['breaks_property'] = props[0]
+        rec['needs_to_manifest'] = am.get('needs_to_manifest')
+        rec['summary'] = am.get('summary')
+        rec['what_was_run'] = ('demo with/without the change in the scratch worktree (PYTHONPATH=<worktree>/src), the repository '
+                               'suite with the change (pinned stable tests compared with /root/.vp/BASELINE.json), then '
+                               '`git -C /repo apply patch.diff`, quick checks, `git -C /repo checkout -- .`')
+        json.dump(rec, open(os.path.join(out, 'meta.json'), 'w'), indent=1)
+        print(json.dumps({k: rec[k] for k in ('seed_id', 'confirmed', 'demo_with_change', 'demo_without_change')}))
+        print('tests:', rec['tests_with_change']['stable_pass_still_passing'], '/', rec['tests_with_change']['stable_pass_total'])
+        return 0
     # the checks against the change applied to /repo
     rc, o = sh('git -C /repo status --porcelain --untracked-files=no')
     if o.strip():
